@@ -22,7 +22,7 @@ import math
 import numpy as np
 from hypothesis import strategies as st
 
-from vlib.core import HarnessError, Soft, Sub
+from vlib.core import HarnessError, Soft, Sub, case_hash
 
 PROPERTY_ID = "C05"
 LEVEL = "exploration"
@@ -32,14 +32,14 @@ RULE = (
     "conditional / monomer / monomers, or General / GeneralStationary), optionally rate classes (2-4 bins; gamma or free "
     "distribution on 'rate' or on a model parameter; generated bin probabilities and shape), and 1-4 points, each = motif "
     "probabilities (normalised positive weights; plain, one component near 2e-4, or one component near 0.97), all rate "
-    "parameters log-uniform in [1e-2, 1e2] (a third of the points: [1e-4, 1e4]), an optional second parameter vector for one edge, and branch lengths s, t "
+    "parameters log-uniform in [1e-2, 1e2] (a third of the points: [1e-4, 1e4]; a sixth: some parameters at the declared lower bound 1e-6), an optional second parameter vector for one edge, and branch lengths s, t "
     "in [0, 5] (0 and tiny values included). For every point Q (calibrated and not) and P for lengths 0, s, t, s+t are read "
-    "for every bin under each of the expm settings either, pade, checked, eigen and checked against the identities of the "
+    "for every bin under each of the expm settings either, pade, checked, eigen (eigen only on reversible models) and checked against the identities of the "
     "property and against the harness's uniformisation exp(Qt). A case of the expm sub-check is a harness-built rate matrix (2-8 or 20 states; reversible, "
     "general, or near-defective chain/triangular structure) and a time; all exponentiator classes and the back-ends selected "
     "by ExpDefn are compared with the uniformisation reference. The discrete sub-check optimises BH/DT on a generated gap-free alignment for a few "
     "steps and checks stochasticity of every psub. Non-trivial = unequal motif probabilities, at least one non-default "
-    "parameter (or bin structure) and s, t > 0 (expm: n >= 3 and t > 0); distinct = distinct case encodings."
+    "parameter (or bin structure) and s, t > 0 (expm: n >= 3 and t > 0; discrete: at least one optimisation step on non-identical sequences); distinct = distinct case / point encodings."
 )
 ASSUMPTIONS = [
     "motif probabilities have every component >= 2e-5 (set_motif_probs adjusts components below 1e-6); the near-degenerate modes put one component near 2e-4 or near 0.97",
@@ -57,7 +57,6 @@ ASSUMPTIONS = [
     "model objects are cached per worker process (construction of codon models takes seconds); a fresh likelihood function is built for every point and expm setting",
 ]
 
-NUC = "TCAG"
 EXPMS = ["either", "pade", "checked", "eigen"]
 
 # name: (family, number of motif probabilities to supply (0 = fixed by the model), mprob rule, kind, ordered_param candidates)
@@ -110,8 +109,14 @@ _MODEL_CACHE: dict = {}
 
 
 # ------------------------------------------------------------------ generators
+_DIGIT = st.integers(0, 99)
+
+
 def _fl(lo, hi):
-    return st.floats(lo, hi, allow_nan=False, allow_infinity=False)
+    # uniform on a 1e6 grid, composed of three small uniform draws: st.floats puts a third of its mass on the low
+    # decile and on 'nice' values and st.integers over a wide range four fifths, which makes generated rate matrices
+    # far more symmetric (exactly defective, equal rates) than generic ones
+    return st.tuples(_DIGIT, _DIGIT, _DIGIT).map(lambda d: lo + (hi - lo) * ((d[0] * 10000 + d[1] * 100 + d[2]) / 999999.0))
 
 
 @st.composite
@@ -120,7 +125,7 @@ def pi_st(draw, n):
     if n == 0:
         return None
     mode = draw(st.sampled_from(["plain", "plain", "plain", "small", "dominant", "equal"]))
-    idx = draw(st.integers(0, n - 1))
+    idx = draw(st.sampled_from(range(n)))
     w = draw(st.lists(_fl(0.05, 1.0), min_size=n, max_size=n))
     return {"mode": mode, "w": w, "idx": idx}
 
@@ -162,7 +167,7 @@ def point_st(draw, npi, nmono_positions=0):
     s_, t_, u_ = draw(length_st()), draw(length_st()), draw(length_st())
     het = draw(st.sampled_from([True, False, False, False]))
     ndefault = draw(st.sampled_from([0, 0, 0, 1, 3]))
-    zero_at = [draw(st.integers(0, 13)) for _ in range(ndefault)]
+    zero_at = [draw(st.sampled_from(range(14))) for _ in range(ndefault)]
     logp = draw(st.lists(_fl(-lim, lim), min_size=14, max_size=14))
     if prange == "lower-bound":
         # some parameters sit at their declared lower bound 1e-6 (where optimisers of the general models often end)
@@ -188,7 +193,7 @@ def point_st(draw, npi, nmono_positions=0):
 def bins_st(draw, ordered_candidates, p_none=0.6):
     if draw(_fl(0, 1)) < p_none:
         return {"n": 1}
-    n = draw(st.integers(2, 4))
+    n = draw(st.sampled_from([2, 3, 4]))
     ordered = draw(st.sampled_from(["rate", "rate"] + list(ordered_candidates)))
     dist = draw(st.sampled_from(["gamma", "free"]))
     bp = draw(st.lists(_fl(0.05, 1.0), min_size=n, max_size=n))
@@ -203,7 +208,7 @@ def named_cases(draw, names, npoints, p_nobins=0.6):
     name = draw(st.sampled_from(names))
     fam, npi, rule, kind, ordc = NAMED[name]
     bins = draw(bins_st(ordc, p_nobins))
-    default_pi = fam == "protein" and draw(st.integers(0, 3)) == 0
+    default_pi = fam == "protein" and draw(st.sampled_from([True, False, False, False]))
     pts = [draw(point_st(0 if default_pi else npi)) for _ in range(npoints)]
     return {"model": {"kind": "named", "name": name}, "bins": bins, "points": pts}
 
@@ -216,16 +221,16 @@ def built_cases(draw, bases, npoints):
     if base in ("GEN", "GST"):
         pass
     elif kind == "rev":
-        k = draw(st.integers(0, 5))
+        k = draw(st.sampled_from(range(6)))
         preds = sorted(draw(st.lists(st.sampled_from(UNDIRECTED), min_size=k, max_size=k, unique=True)))
-        if draw(st.integers(0, 3)) == 0 and k <= 4:
+        if draw(st.sampled_from([True, False, False, False])) and k <= 4:
             preds = ["kappa"] + [p for p in preds if p not in ("A/G", "C/T")]
     else:
-        k = draw(st.integers(1, 11))
+        k = draw(st.sampled_from(range(1, 12)))
         preds = sorted(draw(st.lists(st.sampled_from(DIRECTED), min_size=k, max_size=k, unique=True)))
     if wl == 2 and draw(st.booleans()):
         preds = preds + [draw(st.sampled_from(["CG/", "CG>", "AT/"]))] if kind != "rev" else preds + [draw(st.sampled_from(["CG/", "AT/"]))]
-    if wl == 3 and draw(st.integers(0, 3)) > 0:
+    if wl == 3 and draw(st.sampled_from([True, True, True, False])):
         preds = preds + ["omega"]
     if wl == 1:
         mprob = draw(st.sampled_from(["tuple", "conditional"])) if base in ("TRN", "STN") else "tuple"
@@ -385,8 +390,11 @@ def exec_lf(case) -> Soft:
     s.cls("family:" + info["family"], "model:" + info["label"], "mprob:" + info["rule"], "kind:" + info["kind"])
     s.cls("bins:1" if bins["n"] == 1 else f"bins:{bins['dist']}-{'rate' if bins['ordered'] == 'rate' else 'param'}")
     s.evals = 0
-    for i, pt in enumerate(case["points"]):
-        run_point(s, sm, info, bins, pt, key=f"p{i}")
+    for pt in case["points"]:
+        if run_point(s, sm, info, bins, pt):
+            if s.nontrivial:  # further non-trivial points of the same case count as distinct sub-cases
+                s.extra_nontrivial.append(case_hash([spec, bins, pt]))
+            s.nontrivial = True
         s.evals += 1
     s.evals = max(1, s.evals)
     return s
@@ -458,7 +466,8 @@ def _build_lf(s, sm, info, bins, pt, expm, pi_in, words, mono):
     return lf
 
 
-def run_point(s: Soft, sm, info, bins, pt, key):
+def run_point(s: Soft, sm, info, bins, pt) -> bool:
+    """all clauses for one parameter point; returns whether the point is non-trivial"""
     from cogent3.maths.optimisers import ParameterOutOfBoundsError
     from numpy.linalg import LinAlgError
 
@@ -705,9 +714,7 @@ def run_point(s: Soft, sm, info, bins, pt, key):
     npar = len(sm.get_param_list())
     default_params = npar > 0 and all(v == 0.0 for v in pt["logp"][:npar])  # models without parameters: vacuous
     unequal = pi_in is None and not info["fixed_pi"] or (pi_in is not None and pmode != "equal")
-    if unequal and (not default_params or bins["n"] > 1) and pt["s"] > 0 and pt["t"] > 0:
-        s.nontrivial = True
-        s.extra_nontrivial.append(key)
+    return bool(unequal and (not default_params or bins["n"] > 1) and pt["s"] > 0 and pt["t"] > 0)
 
 
 # ------------------------------------------------- direct exponentiator check
@@ -847,7 +854,7 @@ def exec_expm(case) -> Soft:
 @st.composite
 def discrete_cases(draw):
     name = draw(st.sampled_from(["BH", "DT", "DT2"]))
-    ncol = draw(st.integers(6, 40)) * (2 if name == "DT2" else 1)
+    ncol = draw(st.sampled_from(range(6, 41))) * (2 if name == "DT2" else 1)
     seqs = [draw(st.lists(st.sampled_from("ACGT"), min_size=ncol, max_size=ncol)) for _ in range(3)]
     # related sequences: rows 1, 2 copy row 0 except at some columns
     for r in (1, 2):
@@ -905,12 +912,12 @@ def exec_discrete(case) -> Soft:
 
 
 SUBS = [
-    Sub("nucleotide", exec_lf, strategy=nuc_cases(), quick=960, thorough=48_000, shards_quick=16),
-    Sub("dinucleotide", exec_lf, strategy=dinuc_cases(), quick=128, thorough=8_000, shards_quick=16),
-    Sub("codon", exec_lf, strategy=codon_cases(), quick=48, thorough=3_200, shards_quick=8, weight=30.0),
-    Sub("protein", exec_lf, strategy=protein_cases(), quick=48, thorough=3_200, shards_quick=4),
-    Sub("expm", exec_expm, strategy=expm_cases(), quick=2400, thorough=80_000, shards_quick=12),
-    Sub("discrete", exec_discrete, strategy=discrete_cases(), quick=200, thorough=8_000, shards_quick=4),
+    Sub("nucleotide", exec_lf, strategy=nuc_cases(), quick=1920, thorough=64_000, shards_quick=16),
+    Sub("dinucleotide", exec_lf, strategy=dinuc_cases(), quick=256, thorough=8_000, shards_quick=16),
+    Sub("codon", exec_lf, strategy=codon_cases(), quick=96, thorough=3_200, shards_quick=16, weight=30.0),
+    Sub("protein", exec_lf, strategy=protein_cases(), quick=96, thorough=3_200, shards_quick=8),
+    Sub("expm", exec_expm, strategy=expm_cases(), quick=4000, thorough=96_000, shards_quick=16),
+    Sub("discrete", exec_discrete, strategy=discrete_cases(), quick=320, thorough=8_000, shards_quick=8),
 ]
 
 KNOWN_PREDICATES = {}
